@@ -17,11 +17,82 @@ def plan(tier):
 
 
 def check(pid, tier, seed):
-    return p_kani.check(pid, tier, seed, c04.SPECS, plan(tier), c04.FUNCS, {"slots": 3, "unwind": 5},
+    run = p_kani.check(pid, tier, seed, c04.SPECS, plan(tier), c04.FUNCS, {"slots": 3, "unwind": 5},
                         c04.ASSUME + ["heap_roots_history: the FxHashMap of Roots is replaced by a 4-entry association list (trusted: a finite map)", "cyclic garbage, the trigger policy and weak boxes are outside the claim (they need the marker and a running VM)"],
                         RULE + "; host roots: after releasing one of two root tokens made in arbitrary generations exactly the other value is still rooted",
                         slots=3, timeout=2400)
+    recycle_roots_obligation(run)
+    return run
+
+
+def recycle_roots_obligation(run):
+    """E3e' : the global-slot recycler queues a global root only after the candidate-set membership test (lib/p_order.py)"""
+    import os, re, json, shutil, subprocess, time
+    import ws, p_order
+    oid = "recycle:candidates-are-not-roots"
+    t0 = time.time()
+    try:
+        wsdir = ws.prepare("c19mir", [])
+        root = os.path.dirname(wsdir)
+        out = os.path.join(root, "steel_core.mir")
+        env = ws.mir_dump(wsdir, root, out)
+        res = p_order.analyse_recycle(open(out).read())
+    except Exception as ex:
+        run.ob(oid, "inconclusive", reason="extraction failed: %s" % str(ex)[-300:], engine="mir-smt")
+        return
+    common = dict(engine="mir-smt/z3", wall_s=round(time.time() - t0, 1), solver_s=round(sum(r["dt"] for r in res), 3), solver_checks=2 * len(res))
+    run.samples.append({"engine": "mir-smt", "query": "exists a control-flow path in GlobalSlotRecycler::recycle from the entry to a push_back of a value taken from the roots slice that does not pass the membership test of the candidate set (HashSet::contains); rank-encoded reachability, z3",
+                        "sites": [(r["block"], r["res"]) for r in res]})
+    run.functions.append("values::closed::GlobalSlotRecycler::recycle: order of the candidate-set test and the queueing of global roots (MIR control flow)")
+    run.assumptions.append("recycle (E3e'): only the ORDER membership-test -> push_back is decided, not the direction of the branch taken on the test's answer")
+    if not res or any(r["witness"] != "sat" or r["res"] == "error" for r in res):
+        run.ob(oid, "inconclusive", reason="vacuous or solver error (%d root-queueing sites)" % len(res), **common)
+        return
+    bad = [r for r in res if r["res"] == "sat"]
+    if not bad:
+        run.ob(oid, "pass", nonvacuous=True, note="%d site(s) queue a global root, each only after the candidate-set test" % len(res), **common)
+        return
+    what = "GlobalSlotRecycler::recycle queues a global root on a path that has not tested its index against the candidate set: candidates keep themselves (and what they mention) alive"
+    try:
+        shutil.copy(os.path.join(ws.VERIF, "harness", "arity_replay.rs"), os.path.join(wsdir, "crates", "steel-core", "tests", "verif_arity_replay.rs"))
+        p = subprocess.run(["cargo", "test", "--offline", "-p", "steel-core", "--no-default-features", "--features", ws.FEATURES,
+                            "--test", "verif_arity_replay", "--target-dir", os.path.join(root, "tn"), "--", "recycle_roots_replay", "--exact", "--nocapture"],
+                           cwd=wsdir, env=env, capture_output=True, text=True, timeout=2400)
+        m = re.search(r"OBSERVED: (.*)", p.stdout + p.stderr)
+    except Exception as ex:
+        run.ob(oid, "inconclusive", reason="replay failed: %s" % str(ex)[-300:], **common)
+        return
+    if not m:
+        run.ob(oid, "inconclusive", reason="solver: %s; the shadowed generations were released natively" % what, **common)
+        return
+    d = os.path.join(ws.VERIF, "replays", run.pid)
+    os.makedirs(d, exist_ok=True)
+    path = os.path.join(d, "recycle_roots.json")
+    json.dump({"property": run.pid, "kind": "recycle", "what": what, "observed": m.group(1), "how": "./check %s --replay <this file>" % run.pid}, open(path, "w"), indent=1)
+    key = "recycle:candidates-queued-as-roots"
+    if run.is_known(key):
+        run.known_hit(key, run.known[(run.pid, key)] + " -- " + m.group(1)[:200])
+        run.ob(oid, "known", nonvacuous=True, **common)
+    else:
+        run.violation(key, "%s; natively: %s" % (what, m.group(1)[:300]), path)
+        run.ob(oid, "fail", note=m.group(1)[:200], **common)
 
 
 def replay(pid, path):
+    import json
+    payload = json.load(open(path))
+    if payload.get("kind") == "recycle":
+        import os, re, shutil, subprocess, ws
+        wsdir = ws.prepare("c19replay", [])
+        root = os.path.dirname(wsdir)
+        shutil.copy(os.path.join(ws.VERIF, "harness", "arity_replay.rs"), os.path.join(wsdir, "crates", "steel-core", "tests", "verif_arity_replay.rs"))
+        p = subprocess.run(["cargo", "test", "--offline", "-p", "steel-core", "--no-default-features", "--features", ws.FEATURES,
+                            "--test", "verif_arity_replay", "--target-dir", os.path.join(root, "tn"), "--", "recycle_roots_replay", "--exact", "--nocapture"],
+                           cwd=wsdir, env=dict(os.environ, CARGO_NET_OFFLINE="true"), capture_output=True, text=True)
+        m = re.search(r"OBSERVED: (.*)", p.stdout + p.stderr)
+        print("observed:", m.group(1) if m else "not reproduced")
+        if m:
+            print("VIOLATION property=%s replay=%s" % (pid, path))
+            return 1
+        return 0
     return p_kani.replay(pid, path)
